@@ -181,7 +181,7 @@ func (g *gen) tree(s *Schema, depth int) any {
 		n := s.N
 		if s.K == "slice" {
 			n = g.count(s.Min, s.Max, hi)
-			if e, ok := g.edge(s, depth, 30); ok && cheapElem(s.E) {
+			if e, ok := g.edge(s, depth, 30); ok && cheapElem(s.E) && s.Lp == 1 { // (65536 elements are beyond what TLC's recursive Flatten takes)
 				n = e
 			}
 		}
